@@ -332,6 +332,13 @@ func oraclePerm(c *Case) CaseResult {
 			res.Fail = "storage series order permuted: " + d
 			res.Impl, res.Ref = trunc(got.String(), 500), trunc(base.String(), 500)
 			res.Tags = selfTags(c, got, base)
+			if (got.Kind == "error") != (base.Kind == "error") && (errGroup(got.Err) == "matching" || errGroup(base.Err) == "matching") {
+				// whether a step is ambiguous is decided from the samples of the step, whatever the order
+				// of the series: no recorded finding covers an order in which the query fails and one in
+				// which it does not (F20 is about which labels and duplicates a colliding join returns)
+				res.Fail = "storage series order permuted: the query fails with a many-to-many error in one order and succeeds in the other"
+				res.Tags = []string{"error-depends-on-series-order"}
+			}
 			return res
 		}
 	}
